@@ -218,3 +218,10 @@ def r3(ctx: Ctx) -> None:
         earlier = [e for e in p.events[:i] if uses(e)]
         ctx.check(len(later) == 2 and not earlier, f, st[0].node, "the rewritten price is what the quotes and the record are computed from", "rewrite < _update_market_price < OrderLog", f"{len(later)} later / {len(earlier)} earlier uses")
     ctx.require(n >= 2, f"{ADD}: rounding paths not found")
+
+
+@rule("C19.H1", "mechanism shared with C10: the price recorded and kept for an accepted order is the rounded one (nothing rewrites it between rounding and the record, callees included)", "T10 field provenance (same rule as C10.R3)", floor=10)
+def h1(ctx: Ctx) -> None:
+    from .c10 import r3 as record_fields_rule
+
+    record_fields_rule(ctx)
